@@ -11,7 +11,7 @@ use crate::Ctx;
 use serde_json::json;
 use std::mem::{size_of, MaybeUninit};
 
-const RULE: &str = "for each set x key type {PrivateKey, PublicKey} x provenance {keygen_from_seed, try_keygen_with_rng, try_from_bytes, get_public_key, clone} x placement {stack slot MaybeUninit<T>, heap Box<MaybeUninit<T>>}: the object is written into storage the harness owns, the fraction of non-zero bytes is measured (must be > 25%: the object really holds key material), ptr::drop_in_place runs the type's Drop, then every one of size_of::<T>() bytes is read with read_volatile and must be 0. Non-trivial = distinct (set, type, provenance, placement, key) objects whose storage was non-zero before and fully inspected after the drop. Copies left behind by earlier moves are out of reach.";
+const RULE: &str = "for each set x key type {PrivateKey, PublicKey} x provenance {keygen_from_seed, try_keygen_with_rng, try_from_bytes, get_public_key, clone; plus keys imported from degenerate encodings: public keys that are all-zero / all-FF / with rho = 0 / rho = FF, private keys with rho = K = tr = 0 or FF or made of all-zero bytes, the public keys derived from those, and clones} x placement {stack slot MaybeUninit<T>, heap Box<MaybeUninit<T>>}: the object is written into storage the harness owns, the fraction of non-zero bytes is measured (must be > 25%: the object really holds key material), ptr::drop_in_place runs the type's Drop, then every one of size_of::<T>() bytes is read with read_volatile and must be 0. Non-trivial = distinct (set, type, provenance, placement, key) objects whose storage was non-zero before and fully inspected after the drop. Copies left behind by earlier moves are out of reach.";
 
 pub fn run(ctx: &Ctx) -> StageOut {
     let mut acc = Acc::new();
@@ -71,13 +71,20 @@ fn probe<T, F: FnOnce() -> T>(make: F, heap: bool) -> Probe {
 }
 
 fn judge(acc: &mut Acc, set: &str, ty: &str, prov: &str, heap: bool, key_id: &[u8], pr: Result<Probe, crate::guard::PanicInfo>) {
+    judge_min(acc, set, ty, prov, heap, key_id, pr, 0)
+}
+
+/// `min_nonzero` > 0: accept the probe as meaningful when at least that many bytes were non-zero before
+/// the drop (objects built from degenerate encodings are mostly zero but still hold e.g. tr)
+#[allow(clippy::too_many_arguments)]
+fn judge_min(acc: &mut Acc, set: &str, ty: &str, prov: &str, heap: bool, key_id: &[u8], pr: Result<Probe, crate::guard::PanicInfo>, min_nonzero: usize) {
     acc.eval();
     let place = if heap { "heap" } else { "stack" };
     let replay = json!({"kind":"c16","set":set,"type":ty,"provenance":prov,"placement":place,"key_seed":hex(key_id)});
     match pr {
         Err(pi) => acc.violation(&format!("C16|panic|{set}|{ty}|{prov}"), format!("panic while creating/dropping: {}", pi.message), replay),
         Ok(p) => {
-            if p.nonzero_before * 4 < p.size {
+            if (min_nonzero == 0 && p.nonzero_before * 4 < p.size) || (min_nonzero > 0 && p.nonzero_before < min_nonzero) {
                 acc.inconclusive(format!("{set} {ty} {prov}: only {}/{} bytes non-zero before the drop: not a meaningful probe", p.nonzero_before, p.size));
                 return;
             }
@@ -121,6 +128,34 @@ fn run_set<S: PS>(ctx: &Ctx) -> Acc {
             judge(&mut acc, p.name, "PublicKey", "try_from_bytes", heap, &xi, guarded(|| probe(|| S::pk_from(&pk_b).unwrap(), heap)));
             judge(&mut acc, p.name, "PublicKey", "get_public_key", heap, &xi, guarded(|| probe(|| S::derive(&sk0), heap)));
             judge(&mut acc, p.name, "PublicKey", "clone", heap, &xi, guarded(|| probe(|| pk0.clone(), heap)));
+            // keys imported from degenerate encodings (fields that are all-zero / all-ones)
+            if ki == 0 {
+                use refimpl as r;
+                let zero_pk = vec![0u8; p.pk_len];
+                let ff_pk = vec![0xFFu8; p.pk_len];
+                let mut rho0_pk = pk_b.clone();
+                rho0_pk[..32].fill(0);
+                let mut rhoff_pk = pk_b.clone();
+                rhoff_pk[..32].fill(0xFF);
+                for (name, bytes) in [("try_from_bytes(all-zero)", &zero_pk), ("try_from_bytes(all-ff)", &ff_pk), ("try_from_bytes(rho=0)", &rho0_pk), ("try_from_bytes(rho=ff)", &rhoff_pk)] {
+                    judge_min(&mut acc, p.name, "PublicKey", name, heap, &xi, guarded(|| probe(|| S::pk_from(bytes).unwrap(), heap)), 32);
+                    judge_min(&mut acc, p.name, "PublicKey", &format!("clone of {name}"), heap, &xi, guarded(|| { let k = S::pk_from(bytes).unwrap(); probe(|| k.clone(), heap) }), 32);
+                }
+                // private keys with rho / K / tr zero or ones, and the public keys derived from them
+                let parts = r::sk_decode(p, &sk_b);
+                for (name, fill) in [("rho=K=tr=0", 0u8), ("rho=K=tr=ff", 0xFFu8)] {
+                    let hs = r::sk_encode(p, &[fill; 32], &[fill; 32], &[fill; 64], &parts.s1, &parts.s2, &parts.t0);
+                    judge_min(&mut acc, p.name, "PrivateKey", &format!("try_from_bytes({name})"), heap, &xi, guarded(|| probe(|| S::sk_from(&hs).unwrap(), heap)), 32);
+                    judge_min(&mut acc, p.name, "PublicKey", &format!("get_public_key of sk({name})"), heap, &xi, guarded(|| { let k = S::sk_from(&hs).unwrap(); probe(|| S::derive(&k), heap) }), 32);
+                }
+                // all-zero s1/s2/t0 fields (coefficients at the range top) with zero rho/K/tr
+                let zs = vec![[p.eta; 256]; p.l];
+                let zs2 = vec![[p.eta; 256]; p.k];
+                let zt = vec![[1i64 << 12; 256]; p.k];
+                let hs = r::sk_encode(p, &[0u8; 32], &[0u8; 32], &[0u8; 64], &zs, &zs2, &zt);
+                judge_min(&mut acc, p.name, "PrivateKey", "try_from_bytes(all-zero bytes)", heap, &xi, guarded(|| probe(|| S::sk_from(&hs).unwrap(), heap)), 32);
+                judge_min(&mut acc, p.name, "PublicKey", "get_public_key of sk(all-zero bytes)", heap, &xi, guarded(|| { let k = S::sk_from(&hs).unwrap(); probe(|| S::derive(&k), heap) }), 32);
+            }
             // the pair as returned by key generation, dropped as a tuple
             judge(&mut acc, p.name, "(PublicKey,PrivateKey)", "keygen_from_seed", heap, &xi, guarded(|| probe(|| S::keygen_seed(&xi), heap)));
         }
